@@ -374,8 +374,10 @@ def find_emit_token(fx):
 def r13(ctx, fx, ref, opfn):
     rid = ctx.rule("R1.3", "relative branches: the arm computing an offset is selected for exactly the ISA's eight relative-mode mnemonics; "
                    "offset = target − (current target pc + 2); accepted iff −128..=127; negative offsets wrap by +256; every other offset returns Err")
-    callers = [f for f in fx.all_fns("mos_core") if f.d.get("hir") and
-               any(p == opfn.path for _, p in lib.hir_calls(f.hir["body"]))] if opfn else []
+    # (a function of the table's own module that hands its parameters on is a spelling of the table, not a user of it)
+    callers = [f for f in fx.all_fns("mos_core") if f.d.get("hir") and f.path.rsplit("::", 1)[0] != opfn.path.rsplit("::", 1)[0] and "::tests::" not in f.path and
+               any(p == opfn.path or (p and p.rsplit("::", 1)[0] == opfn.path.rsplit("::", 1)[0] and fx.fn(p) is not None and
+                                      any(q == opfn.path for _, q in lib.hir_calls(fx.fn(p).hir["body"]))) for _, p in lib.hir_calls(f.hir["body"]))] if opfn else []
     if len(callers) != 1:
         ctx.fail_closed(rid, "expected one caller of the opcode table, found %d" % len(callers))
         return None
@@ -524,8 +526,24 @@ def r17(ctx, fx, opfn, emitfn):
     if not (opfn and emitfn):
         ctx.fail_closed(rid, "opcode table or its caller not found")
         return
+    # what an instruction assembles to is a function of the instruction: the table takes the mnemonic, the form, the index register and the operand's value — nothing
+    # the code generator remembers (about other passes, other expansions of the same source text, neighbouring statements)
+    k = "%s|table-signature" % opfn.path
+    ptys = [lib.local_ty(opfn, i) or "?" for i in range(1, opfn.argc + 1)]
+    want = ["Mnemonic", "AddressingMode", "IndexRegister", "i64"]
+    ctx.inst(rid, k, sample={"parameters": ptys})
+    extra = [t for t in ptys if not any(w in t for w in want)]
+    if extra or len(ptys) != 4:
+        ctx.finding(rid, k, "the opcode table `%s` takes %s besides mnemonic, form, index register and operand value: which encoding an instruction gets depends on "
+                    "something else than the instruction — the zero-page form is no longer chosen exactly when one exists and the operand is 0..255" % (
+                        opfn.path.rsplit("::", 1)[-1], ", ".join("a `%s`" % t for t in extra) or "%d parameters" % len(ptys)), opfn.where)
+    mod = opfn.path.rsplit("::", 1)[0]
+    spellings = {opfn.path} | {g.path for g in fx.all_fns("mos_core") if g.path.rsplit("::", 1)[0] == mod and g.d.get("hir") and
+                               any(q == opfn.path for _, q in lib.hir_calls(g.hir["body"]))}
     k = "%s|table-call" % emitfn.path
-    sites = [x for x, p in lib.hir_calls(emitfn.hir["body"]) if p == opfn.path]
+    sites = [x for x, p in lib.hir_calls(emitfn.hir["body"]) if p in spellings]
+    if not sites:
+        ctx.fail_closed(rid, "the call of the opcode table in %s was not found" % emitfn.path)
     for x in sites:
         ctx.inst(rid, k, sample={"args": [lib.hpath(a) or lib.strip(a).get("k") for a in x["args"]]})
         a0 = lib.strip(x["args"][0])
